@@ -10,8 +10,9 @@ LEVEL = "exploration"
 RULE = ("bounded-exhaustive: every derivation sequence of length <= 3 (quick) / <= 4 (thorough) over 8 variants "
         "{*, *const, *volatile restrict, [], [3], (void), (int x, char *, ...), ()} in 8 named-declaration contexts "
         "(file, typedef, member, parameter, block, second declarator, for-init, K&R parameter) and 6 type-name contexts "
-        "(cast, sizeof, _Alignof, compound literal, abstract parameter, _Alignas), plus the parameter-only array forms "
-        "([static const 2], [*], [restrict static n+1]) to length 2/3; random declarations (all C99 6.7.2p2 specifier "
+        "(cast, sizeof, _Alignof, compound literal, abstract parameter, _Alignas), plus the parameter-only forms "
+        "([static const 2], [*], [restrict static n+1], [const *], [restrict volatile *], [const], (T0), (T0, const T1 *) with "
+        "typedef names) to length 2/3 in named and abstract parameters; random declarations (all C99 6.7.2p2 specifier "
         "multisets in shuffled order, struct/union/enum bodies with bit-fields/anonymous members/_Alignas/pragmas/static "
         "assertions, _Atomic(T), multi-declarator lists, nested designated initializers) and random whole translation "
         "units. Non-trivial: the declaration has >= 1 derivation or a non-basic specifier; distinct = distinct "
@@ -30,9 +31,14 @@ def plan(tier, seed):
         for s in range(0, len(seqs), BATCH):
             recipes.append({"k": "derivs", "ctx": ctx, "seqs": seqs[s:s + BATCH], "render": "min", "seed": seed + s,
                             "style": ["single", "minimal", "random"][(s // BATCH) % 3]})
-    pseqs = [list(s) for s in cases.deriv_sequences(2 if tier == "quick" else 3, 12) if any(i >= 8 for i in s)]
-    for s in range(0, len(pseqs), BATCH):
-        recipes.append({"k": "derivs", "ctx": "param", "seqs": pseqs[s:s + BATCH], "render": "min", "seed": seed + s})
+    from ..gen import gens
+    pseqs = [list(s) for s in cases.deriv_sequences(2 if tier == "quick" else 3, gens.N_DERIV_VARIANTS) if any(i >= 8 for i in s)]
+    for ctx in ("param", "abstract-param"):
+        # C11 6.7.7: an abstract declarator has no '[type-qualifier-list *]' form
+        ps = pseqs if ctx == "param" else [q for q in pseqs if 12 not in q and 13 not in q]
+        for s in range(0, len(ps), BATCH):
+            recipes.append({"k": "derivs", "ctx": ctx, "seqs": ps[s:s + BATCH], "render": "min", "seed": seed + s,
+                            "style": ["single", "minimal", "random"][(s // BATCH) % 3]})
     nrand = 600 if tier == "quick" else 4000
     for i in range(nrand):
         recipes.append({"k": "rdecls", "seed": seed * 100003 + i, "count": 12, "render": ["min", "rand"][i % 2],
